@@ -110,6 +110,7 @@ func cmdRun(args []string) int {
 	verbose := fs.Bool("v", false, "verbose")
 	workers := fs.Int("workers", 16, "workers")
 	noEvidence := fs.Bool("no-evidence", false, "do not write the evidence file")
+	noReplay := fs.Bool("no-replay", false, "do not replay counterexamples natively")
 	fs.Parse(args)
 	if t := os.Getenv("VERIF_TIER"); t != "" && !isFlagSet(fs, "tier") {
 		*tier = t
@@ -237,8 +238,28 @@ func cmdRun(args []string) int {
 		path := filepath.Join(verifRoot, "evidence", "cex", fmt.Sprintf("%s-%d.json", spec.Property, nviol))
 		vb, _ := json.MarshalIndent(map[string]interface{}{"property": spec.Property, "violation": v, "spec": *specPath, "tier": *tier}, "", " ")
 		os.WriteFile(path, vb, 0o644)
+		replayNote := "native replay: not attempted"
+		if !*noReplay {
+			ok, txt, err := nativeReplay(*specPath, *tier, v)
+			switch {
+			case err != nil:
+				replayNote = "native replay: could not run (" + oneLine(err.Error()) + ")"
+			case ok:
+				replayNote = "native replay: CONFIRMED against the real build"
+			default:
+				replayNote = "native replay: NOT reproduced"
+				if strings.Contains(txt, "VXREPLAY") {
+					// the native run completed and disagrees with the engine: the machinery is suspect
+					inconcl = append(inconcl, fmt.Sprintf("%s: violation %s found symbolically did not reproduce natively", v.Harness, v.Label))
+					fmt.Printf("UNCONFIRMED property=%s label=%s (kept as %s; not reported as a violation)\n", spec.Property, v.Label, path)
+					nviol--
+					continue
+				}
+				replayNote += " (native run did not complete: " + oneLine(lastLines(txt, 3)) + ")"
+			}
+		}
 		fmt.Printf("VIOLATION property=%s replay=%s\n", spec.Property, path)
-		fmt.Printf("  harness=%s label=%s kind=%s %s\n", v.Harness, v.Label, v.Kind, oneLine(v.Msg))
+		fmt.Printf("  harness=%s label=%s kind=%s %s\n  %s\n", v.Harness, v.Label, v.Kind, oneLine(v.Msg), replayNote)
 		if exit == 0 || exit == 2 {
 			exit = 1
 		}
@@ -402,7 +423,10 @@ func isFlagSet(fs *flag.FlagSet, name string) bool {
 	return set
 }
 
-func cmdReplay(args []string) int {
-	fmt.Fprintln(os.Stderr, "replay: not implemented yet")
-	return 2
+func lastLines(s string, n int) string {
+	ls := strings.Split(strings.TrimSpace(s), "\n")
+	if len(ls) > n {
+		ls = ls[len(ls)-n:]
+	}
+	return strings.Join(ls, " | ")
 }
